@@ -1235,21 +1235,19 @@ theorem foldr_mul_pos : ∀ dims : List Nat, (∀ d ∈ dims, 0 < d) → 0 < dim
     simp only [List.foldr_cons]
     exact Nat.mul_pos (h d (by simp)) (foldr_mul_pos ds (fun x hx => h x (by simp [hx])))
 
-/-- `SDDecartian::UpdateSize` is exact as long as twice the product stays within `SET_INFINITY`. -/
+/-- `SDDecartian::UpdateSize` is exact as long as the product stays within `SET_INFINITY`. -/
 theorem prodCount_exact : ∀ (dims : List Nat) (c : Nat), 1 ≤ c → (∀ d ∈ dims, 0 < d) →
-    2 * (c * dims.foldr (· * ·) 1) ≤ SET_INFINITY → prodCount dims c = some (c * dims.foldr (· * ·) 1)
+    c * dims.foldr (· * ·) 1 ≤ SET_INFINITY → prodCount dims c = some (c * dims.foldr (· * ·) 1)
   | [], c, _, _, _ => by simp [prodCount]
   | d :: ds, c, hc, hpos, hb => by
     have hd : 0 < d := hpos d (by simp)
     have hp : 0 < ds.foldr (· * ·) 1 := foldr_mul_pos ds (fun x hx => hpos x (by simp [hx]))
     simp only [List.foldr_cons] at hb ⊢
     have h1 : c * d ≤ c * (d * ds.foldr (· * ·) 1) := Nat.mul_le_mul_left c (Nat.le_mul_of_pos_right d hp)
-    have h2 : (c + 1) * d ≤ 2 * (c * d) := by
-      rw [← Nat.mul_assoc]; exact Nat.mul_le_mul_right d (by omega)
-    have h3 : (c + 1) * d ≤ SET_INFINITY := by omega
-    have h4 : c + 1 ≤ SET_INFINITY / d := (Nat.le_div_iff_mul_le hd).2 h3
+    have h3 : c * d ≤ SET_INFINITY := by omega
+    have h4 : c ≤ SET_INFINITY / d := (Nat.le_div_iff_mul_le hd).2 h3
     have hne : d ≠ 0 := by omega
-    have hgt : SET_INFINITY / d > c := by omega
+    have hgt : SET_INFINITY / d ≥ c := h4
     simp only [prodCount, hne, if_false, hgt, if_true]
     rw [prodCount_exact ds (c * d) (Nat.mul_pos (by omega) hd) (fun x hx => hpos x (by simp [hx]))
       (by rw [Nat.mul_assoc]; exact hb), Nat.mul_assoc]
